@@ -25,6 +25,10 @@ def _run_case(args):
     try:
         dst = os.path.join(tmp, "repo")
         shutil.copytree(os.path.join(repo, "src"), os.path.join(dst, "src"), ignore=shutil.ignore_patterns("__pycache__"))
+        if case.get("patch"):
+            r0 = subprocess.run(["patch", "-p1", "-s", "-i", os.path.join(VERIF, case["patch"])], cwd=dst, capture_output=True, text=True)
+            if r0.returncode != 0:
+                return cid, pid, kind, "BROKEN", "seed patch does not apply"
         for rel, old, new in edits:
             p = os.path.join(dst, rel)
             with open(p, encoding="utf-8") as fh:
